@@ -124,6 +124,54 @@ def run(ctx):
         ctx.case(('w8', row['code'], row['w']), True)
         check_row(row['code'], row['w'], 1, dy(row['d']))
     ctx.sample(dict(kind='oracle row', row=t32[len(t32) // 3]))
+    # the same LIS words through the FILE path (RepCode.readRepCode on a LIS file positioned inside a logical record): every word
+    # of a code back to back in one record, so a wrong value or a wrong number of bytes consumed shifts everything after it;
+    # and code 65 (text of a given length, 0 included)
+    from TotalDepth.LIS.core import File as LF
+    from . import c08
+    by_code = {}
+    for row in t32:
+        if row['code'] in lis_impl:
+            by_code.setdefault(row['code'], []).append((struct.pack('>I', word32(row)), dy(row['d'])))
+    for row in t16:
+        if row['code'] in lis_impl:
+            by_code.setdefault(row['code'], []).append((struct.pack('>H', row['w']), dy(row['d'])))
+    for row in t8:
+        if row['code'] in lis_impl:
+            by_code.setdefault(row['code'], []).append((struct.pack('>B', row['w']), dy(row['d'])))
+    for code, words in sorted(by_code.items()):
+        words = words[:4000]
+        ctx.case(('lis-file-path', code), True)
+        try:
+            f = c08.lis_file_for(LF, bytes([0, 0]) + b''.join(w for w, _ in words) + b'\x55\xaa', rng)
+            f.readLrBytes(2)
+            for k, (w, want) in enumerate(words):
+                got = L.readRepCode(code, f)
+                if got != want:
+                    bad('lis-decode', 'LIS RepCode.readRepCode(%d, file) word %d (%s) = %r, standard value %r' % (code, k, w.hex(), got, want), dict(code=code, word=w.hex()))
+                    break
+            else:
+                if f.readLrBytes(2) != b'\x55\xaa':
+                    bad('lis-consume', 'LIS RepCode.readRepCode(%d, file) did not consume exactly %d bytes per word' % (code, len(words[0][0])), dict(code=code))
+        except Exception as e:
+            bad('lis-decode', 'LIS RepCode.readRepCode(%d, file) raised %s: %s' % (code, type(e).__name__, e), dict(code=code))
+    texts = [b'', b'A', b'ABCD', b'', b'x' * 255, b'', b'\x00\xff', b'tail']
+    ctx.case(('lis-file-path', 65), True)
+    try:
+        f = c08.lis_file_for(LF, bytes([0, 0]) + b''.join(texts) + b'\x55\xaa', rng)
+        f.readLrBytes(2)
+        for k, t in enumerate(texts):
+            got = L.readRepCode(65, f, len(t))
+            if got != t:
+                bad('lis-decode', 'LIS RepCode.readRepCode(65, file, %d) text %d = %r, written %r' % (len(t), k, got, t), dict(code=65, length=len(t)))
+                break
+            if L.readBytes(65, t + b'zz', len(t)) != t:
+                bad('lis-decode', 'LIS RepCode.readBytes(65, ..., %d) = %r, written %r' % (len(t), L.readBytes(65, t + b'zz', len(t)), t), dict(code=65, length=len(t)))
+        else:
+            if f.readLrBytes(2) != b'\x55\xaa':
+                bad('lis-consume', 'LIS RepCode.readRepCode(65, file, n) did not consume exactly n bytes', dict(code=65))
+    except Exception as e:
+        bad('lis-decode', 'LIS RepCode.readRepCode(65, file, n) raised %s: %s' % (type(e).__name__, e), dict(code=65))
     # VSINGL: the value formula has two readings in the offline sources (RepCodes!DecVsingl); the implementation must follow one
     # of them on EVERY pattern - that fixes zero, sign, the exponent law and every fraction bit
     tvs = json.load(open(files['OUT_VS']))
